@@ -1,5 +1,7 @@
 import FqModel.Gaps
+import FqModel.Tree
 import Proofs.Gaps
+import Proofs.GapsTree
 /-!
   C04 — property theorems about the model of `ranges.Gaps` (FqModel/Gaps.lean).
   Helper lemmas live in Proofs/Gaps.lean.
@@ -14,6 +16,33 @@ import Proofs.Gaps
           of the known finding `one-bit-hole`); and the full (c) for the one-character repair
           `m.Stop() >= ranges[j].Start` — `gapsFixed_cover`.
       (d) the result does not depend on the order of the input (unstable sort) — `gaps_perm`.
+
+  SYSTEM LEVEL (second half of this file, helper lemmas Proofs/GapsTree.lean): the same statements about the decode
+  TREE that `decode.Decode` returns for ANY decoder program (`FqModel.Tree.run`, the model C03 proves `run_wf` about;
+  `D.FillGaps` = `addGaps`/`finishDecode`, decode.go:149-151, :327-370), failing programs with their partial trees
+  included:
+      (T4) the gap fields attached to the root are — as a multiset — exactly `ranges.Gaps(0:l, leaves)` moved to the
+           start of the decode range, where `leaves` are ALL non-compound values of the root's buffer below the root
+           (nested buffer roots skipped), and they satisfy H                        — `tree_gaps_are_ranges_gaps`
+      (T1) every bit of the decode range is in a leaf, in a gap field or is a one-bit hole — `tree_cover_partial`;
+           the hole disjunct cannot be dropped (`tree_full_cover_false`); with the repaired `ranges.Gaps` applied to
+           the same leaves nothing is lost                                           — `tree_cover_gapsFixed`
+      (T2) a gap field overlaps no leaf and neither overlaps nor touches another gap field
+                                                                   — `tree_gaps_disjoint_leaves`, `tree_gaps_apart`
+      (T3) gap fields lie inside the decode range                                    — `tree_gaps_within`
+      (T5) the undecoded tail (every bit at or after the last leaf stop — e.g. of a failed decode) is inside ONE
+           gap field that ends with the decode range; no hole exception there        — `tree_tail_is_one_gap`
+      (T6) the same for EVERY `decode()` call with FillGaps that a program makes (FieldFormatLen/Range,
+           FieldFormatBitBuf), at the moment the call returns                        — `nested_decode_filled`
+      (T7) FillGaps never fails to read a gap (`bitiox.Range`); the only panic that can escape `decode()` is its
+           duplicate-name Fatalf                                                      — `fillgaps_panic_only_duplicate_name`
+      (T8) gap fields come from FillGaps only (no program makes one)                  — `no_fillgaps_no_gap_fields`
+  WHICH decodes fill gaps is part of the model (`FMode.fill`, `doFmtBuf`, `doInline`, `doRootFn`, `doRootBuf`) and agrees
+  with decode.go: FillGaps:true for the top level (interp), TryFieldFormatLen :1078, TryFieldFormatRange :1118,
+  TryFieldFormatBitBuf :1147; FillGaps:false for D.Format :1008 and TryFieldFormat :1039; FieldRootBitBuf and
+  Field{Struct,Array}RootBitBufFn do not call decode() at all — their buffers are never gap filled.
+  CONTENT: the model's gap leaves carry no content (`leaf (.gap n) .gap start len`, `val = 0`), so "a gap field's content
+  is exactly the input bits of its range" is NOT a theorem here; it is checked by the correspondence (`gapbits` cases).
 -/
 namespace Props.C04
 open FqModel.Gaps Proofs.Gaps
@@ -147,5 +176,196 @@ example :
 example : ([⟨4, 4⟩, ⟨4, 0⟩, ⟨0, 2⟩] : List Range).Perm [⟨4, 0⟩, ⟨0, 2⟩, ⟨4, 4⟩] ∧
     ∀ r ∈ ([⟨4, 4⟩, ⟨4, 0⟩, ⟨0, 2⟩] : List Range), 0 ≤ r.len := by
   decide
+
+/-! ## the system level: `D.FillGaps` on the decode tree of any decoder program -/
+
+section tree
+open FqModel FqModel.Tree FqModel.GapsTree Proofs.GapsTree
+
+/-- start and length of `decodeRange` (decode.go:55-58: Options.Range, or the whole buffer when it is 0:0) -/
+abbrev dS (cfg : Cfg) (input : Bits) : Int := (decodeRange cfg input).1
+abbrev dL (cfg : Cfg) (input : Bits) : Int := (decodeRange cfg input).2
+
+/- Vocabulary (FqModel/GapsTree.lean, executable — the driver evaluates the same definitions on fq's real trees):
+   `gapFields t`   ranges of the direct children of `t` that carry FlagGap — what FillGaps attached to `t`;
+   `fieldLeaves t` ranges of all other non-compound values of `t`'s buffer below `t`, nested buffer roots skipped with
+                   everything below them (`WalkRootPreOrder`); gap fields of nested sub-decodes are leaves here;
+   `shift s r`     `r` moved by `s` bits; `localLeaves s t` = `fieldLeaves t` moved by `-s` (relative to the decode range). -/
+
+/-- (T4) the tree-level statement reduces to the flat one: the gap fields of the root are exactly (as a multiset — the
+    root struct is sorted by postProcess) `ranges.Gaps(0:l, leaves)` moved to the decode range, and the leaves
+    satisfy the hypothesis H of the flat theorems.  For a decode of the whole buffer: `gaps 0:len (fieldLeaves t)`. -/
+theorem tree_gaps_are_ranges_gaps (cfg : Cfg) (input : Bits) (t : T) (hf : cfg.fillGaps = true)
+    (ht : (run cfg input).out = .tree t) :
+    H ⟨0, dL cfg input⟩ (localLeaves (dS cfg input) t) ∧
+    (gapFields t).Perm ((gaps ⟨0, dL cfg input⟩ (localLeaves (dS cfg input) t)).map (shift (dS cfg input))) ∧
+    (cfg.off = 0 → cfg.len = 0 → (gapFields t).Perm (gaps ⟨0, input.length⟩ (fieldLeaves t))) := by
+  have h := run_filled cfg input t hf ht
+  refine ⟨h.2.1, h.2.2, ?_⟩
+  intro h1 h2
+  have e : decodeRange cfg input = (0, (input.length : Int)) := by simp [decodeRange, h1, h2]
+  have h' := h.2.2
+  simp only [dS, dL, e] at h'
+  have z : ∀ X : List Range, X.map (shift 0) = X := by
+    intro X
+    have : shift 0 = id := by funext r; cases r; simp [shift]
+    rw [this, List.map_id]
+  have z' : localLeaves 0 t = fieldLeaves t := by
+    unfold localLeaves
+    exact z _
+  rw [z, z'] at h'
+  exact h'
+
+/-- (T1), weakened by exactly the known defect class: every bit of the decode range lies in a leaf of the root's
+    buffer, or in a gap field of the root, or is a one-bit hole between a leaf that stops at it and a leaf that starts
+    one bit later.  MISSING for the full statement: the hole disjunct (`tree_full_cover_false`). -/
+theorem tree_cover_partial (cfg : Cfg) (input : Bits) (t : T) (hf : cfg.fillGaps = true)
+    (ht : (run cfg input).out = .tree t) (b : Int) (hb0 : dS cfg input ≤ b) (hb1 : b < dS cfg input + dL cfg input) :
+    covered (fieldLeaves t) b = true ∨ covered (gapFields t) b = true ∨ oneBitHole (fieldLeaves t) b = true := by
+  cases hc : covered (fieldLeaves t) b with
+  | true => exact Or.inl rfl
+  | false => exact Or.inr (filled_cover (run_filled cfg input t hf ht) b hb0 hb1 hc)
+
+/-- the program `SeekAbs(1); u1; u5; SeekAbs(8); u1` (leaves 1:1 2:5 8:1, the case TestRangeGaps pins) -/
+def holeProg : Cfg := ⟨false, true, 0, 0, false,
+  [.seek true 1 false [], .u (.f 1) 1, .u (.f 2) 5, .seek true 8 false [], .u (.f 3) 1]⟩
+
+/-- the full tree-level coverage statement is FALSE of the code as it is: the decode of a 10-bit buffer by `holeProg`
+    succeeds, gets the gap fields 0:1 and 9:1, and bit 7 is in no leaf and in no gap field -/
+theorem tree_full_cover_false :
+    ¬ (∀ (cfg : Cfg) (input : Bits) (t : T) (b : Int), cfg.fillGaps = true → (run cfg input).out = .tree t →
+        dS cfg input ≤ b → b < dS cfg input + dL cfg input →
+        covered (fieldLeaves t) b = true ∨ covered (gapFields t) b = true) := by
+  intro h
+  have hw : (match (run holeProg (List.replicate 10 true)).out with
+      | .tree t => t.i.err == .none && fieldLeaves t == [⟨1, 1⟩, ⟨2, 5⟩, ⟨8, 1⟩] && gapFields t == [⟨0, 1⟩, ⟨9, 1⟩]
+      | _ => false) = true := by decide +kernel
+  split at hw
+  · rename_i t ht
+    simp only [Bool.and_eq_true, beq_iff_eq] at hw
+    have := h holeProg (List.replicate 10 true) t 7 rfl ht (by decide) (by decide)
+    rw [hw.1.2, hw.2] at this
+    revert this
+    decide
+  · cases hw
+
+/-- (T1) in full for the one-character repair of `ranges.Gaps` (`m.Stop() >= r.Start`), applied by the root's FillGaps
+    to the leaves as they are: no bit of the decode range is lost.  (Nested sub-decodes would get more gap fields
+    under the repair, hence the root more leaves; this is the statement for ONE FillGaps call, which by
+    `nested_decode_filled` is every call.) -/
+theorem tree_cover_gapsFixed (cfg : Cfg) (input : Bits) (t : T) (hf : cfg.fillGaps = true)
+    (ht : (run cfg input).out = .tree t) (b : Int) (hb0 : dS cfg input ≤ b) (hb1 : b < dS cfg input + dL cfg input) :
+    covered (fieldLeaves t) b = true ∨
+    covered ((gapsFixed ⟨0, dL cfg input⟩ (localLeaves (dS cfg input) t)).map (shift (dS cfg input))) b = true := by
+  cases hc : covered (fieldLeaves t) b with
+  | true => exact Or.inl rfl
+  | false => exact Or.inr (filled_cover_fixed (run_filled cfg input t hf ht) b hb0 hb1 hc)
+
+/-- (T2a) no bit of a gap field lies in a leaf of the buffer -/
+theorem tree_gaps_disjoint_leaves (cfg : Cfg) (input : Bits) (t : T) (hf : cfg.fillGaps = true)
+    (ht : (run cfg input).out = .tree t) (b : Int) :
+    covered (gapFields t) b = true → covered (fieldLeaves t) b = false :=
+  filled_disjoint (run_filled cfg input t hf ht) b
+
+/-- (T2b) two gap fields of the root neither overlap nor touch: at least one bit lies between them -/
+theorem tree_gaps_apart (cfg : Cfg) (input : Bits) (t : T) (hf : cfg.fillGaps = true)
+    (ht : (run cfg input).out = .tree t) :
+    (gapFields t).Pairwise (fun g h => g.stop < h.start ∨ h.stop < g.start) :=
+  filled_gaps_apart (run_filled cfg input t hf ht)
+
+/-- (T3) every gap field is a non-negative-length range inside the decode range, which lies inside the buffer -/
+theorem tree_gaps_within (cfg : Cfg) (input : Bits) (t : T) (hf : cfg.fillGaps = true)
+    (ht : (run cfg input).out = .tree t) :
+    (0 ≤ dS cfg input ∧ 0 ≤ dL cfg input ∧ dS cfg input + dL cfg input ≤ input.length) ∧
+    ∀ g ∈ gapFields t, dS cfg input ≤ g.start ∧ 0 ≤ g.len ∧ g.stop ≤ dS cfg input + dL cfg input := by
+  obtain ⟨h0, h1, h2, _⟩ := run_tree_unfold cfg input t ht
+  exact ⟨⟨h0, h1, h2⟩, filled_within (run_filled cfg input t hf ht)⟩
+
+/-- (T5) the undecoded tail — in particular of a FAILED decode, whose partial tree this covers: if every leaf stops at
+    or before `e` and `e` is inside the decode range, then every bit from `e` to the end of the range is in a gap field
+    (no one-bit-hole exception), and it is ONE gap field: it starts at or before `e` and ends with the range. -/
+theorem tree_tail_is_one_gap (cfg : Cfg) (input : Bits) (t : T) (hf : cfg.fillGaps = true)
+    (ht : (run cfg input).out = .tree t) (e : Int) (he : ∀ r ∈ fieldLeaves t, r.stop ≤ e)
+    (he0 : dS cfg input ≤ e) (he1 : e < dS cfg input + dL cfg input) :
+    (∀ b, e ≤ b → b < dS cfg input + dL cfg input → covered (gapFields t) b = true) ∧
+    ∃ g ∈ gapFields t, g.start ≤ e ∧ g.stop = dS cfg input + dL cfg input := by
+  have h := run_filled cfg input t hf ht
+  exact ⟨fun b hb hb1 => filled_tail h e he b hb (Int.le_trans he0 hb) hb1, filled_tail_one_gap h e he he0 he1⟩
+
+/-- (T6) EVERY `decode()` call with FillGaps: the value `t` returned for a sub-format `ps` decoded over the range
+    `s:l` of a buffer (`B` = that section; FieldFormatLen / FieldFormatRange: isRoot = false, FieldFormatBitBuf:
+    isRoot = true, s = 0; the top level is `run`) has exactly `ranges.Gaps` of its leaves as gap fields, every bit of
+    the range is in a leaf, a gap field or is a one-bit hole, gap fields overlap no leaf and lie inside the range.
+    (The enclosing decode later moves all ranges of `t` by its own start and the root's postProcess re-orders and
+    re-indexes `t`'s children; neither changes leaves or gap fields relative to each other.) -/
+theorem nested_decode_filled (name : FName) (arr : Bool) (s l : Int) (isRoot : Bool) (bufLen : Int) (ps : List Prog)
+    (B : Bits) (force : Bool) (t : T) (hB : (B.length : Int) = l)
+    (h : finishDecode name arr s l isRoot true bufLen (execList ps { buf := B, arr := arr, force := force } {}) = .value t) :
+    H ⟨0, l⟩ (localLeaves s t) ∧
+    (gapFields t).Perm ((gaps ⟨0, l⟩ (localLeaves s t)).map (shift s)) ∧
+    (∀ b, s ≤ b → b < s + l →
+      covered (fieldLeaves t) b = true ∨ covered (gapFields t) b = true ∨ oneBitHole (fieldLeaves t) b = true) ∧
+    (∀ b, covered (gapFields t) b = true → covered (fieldLeaves t) b = false) ∧
+    (∀ g ∈ gapFields t, s ≤ g.start ∧ 0 ≤ g.len ∧ g.stop ≤ s + l) := by
+  have hF := exec_decode_filled name arr s l isRoot bufLen ps B force t hB h
+  refine ⟨hF.2.1, hF.2.2, ?_, filled_disjoint hF, filled_within hF⟩
+  intro b hb0 hb1
+  cases hc : covered (fieldLeaves t) b with
+  | true => exact Or.inl rfl
+  | false => exact Or.inr (filled_cover hF b hb0 hb1 hc)
+
+/-- (T7) `bitiox.Range` on a gap never fails (the gaps lie inside the section): the only panic that can escape the
+    top-level `decode()` is FillGaps' duplicate-name Fatalf (a struct root that already has a field named `gap<i>`) -/
+theorem fillgaps_panic_only_duplicate_name (cfg : Cfg) (input : Bits) (e : ErrK) (h : (run cfg input).out = .panic e) :
+    e = .de ∧ cfg.fillGaps = true := run_panic cfg input e h
+
+/-- (T8) gap fields come from FillGaps only: no API call of a decoder program makes a direct child with FlagGap
+    (`Proofs.GapsTree.exec_ng`), so a decode without FillGaps has no gap field at its root -/
+theorem no_fillgaps_no_gap_fields (cfg : Cfg) (input : Bits) (t : T) (hf : cfg.fillGaps = false)
+    (ht : (run cfg input).out = .tree t) : gapFields t = [] := run_nofill cfg input t hf ht
+
+/-! ### non-vacuity -/
+
+/-- a FAILING program (reads 40 bits of a 24-bit buffer inside an array inside a struct) on a sub-range of the input,
+    with a nested length-delimited sub-decode that gets its own gap field -/
+def failProg : Cfg := ⟨false, true, 4, 24, false,
+  [.u (.f 1) 3, .fmt (.len 8 false) (.f 4) false [.u (.f 1) 2, .seek false 3 false [], .u (.f 2) 1],
+   .comp false (.f 2) [.u (.f 1) 5, .comp true (.f 3) [.raw (.f 9) 2, .u (.f 1) 40]]]⟩
+
+/-- the hypotheses of the tree theorems hold of it: a partial tree with Err set; among the root's leaves are the two gap
+    fields 9:3 and 13:2 that the nested FieldFormatLen decode (range 7:8) got from its own FillGaps; the undecoded
+    tail 22:6 is the root's gap field -/
+example :
+    (match (run failProg (List.replicate 40 true)).out with
+      | .tree t => t.i.err == .io &&
+          fieldLeaves t == [⟨4, 3⟩, ⟨7, 2⟩, ⟨9, 3⟩, ⟨12, 1⟩, ⟨13, 2⟩, ⟨15, 5⟩, ⟨20, 2⟩] &&
+          gapFields t == [⟨22, 6⟩]
+      | _ => false) = true := by decide +kernel
+
+/-- … so `tree_tail_is_one_gap` applies with e = 22 (decode range 4:24, i.e. bits 4..28) -/
+example : decodeRange failProg (List.replicate 40 true) = (4, 24) := by decide
+
+/-- `tree_cover_partial`: all three disjuncts occur (holeProg: bit 3 in a leaf, bit 0 in a gap field, bit 7 a hole) -/
+example :
+    (match (run holeProg (List.replicate 10 true)).out with
+      | .tree t => covered (fieldLeaves t) 3 && covered (gapFields t) 0 && oneBitHole (fieldLeaves t) 7
+      | _ => false) = true := by decide +kernel
+
+/-- `nested_decode_filled`: a FieldFormatLen sub-decode (not a root) whose value has a gap field -/
+example :
+    (match finishDecode (.f 4) false 3 8 false true 0
+        (execList [.u (.f 1) 2, .seek false 3 false [], .u (.f 2) 1] { buf := List.replicate 8 true, arr := false, force := false } {}) with
+      | .value t => fieldLeaves t == [⟨3, 2⟩, ⟨8, 1⟩] && gapFields t == [⟨5, 3⟩, ⟨9, 2⟩]
+      | _ => false) = true := by decide +kernel
+
+/-- `no_fillgaps_no_gap_fields`: such trees exist (the same failing program without FillGaps) -/
+example : (match (run { failProg with fillGaps := false } (List.replicate 40 true)).out with
+    | .tree t => t.i.err == .io && gapFields t == [] && (fieldLeaves t).length == 7 | _ => false) = true := by decide +kernel
+
+/-- `fillgaps_panic_only_duplicate_name`: the panic exists — a struct root with a field named gap0 and a gap to fill -/
+example : (match (run ⟨false, true, 0, 0, false, [.u (.gap 0) 3]⟩ (List.replicate 8 true)).out with
+    | .panic e => e == .de | _ => false) = true := by decide +kernel
+
+end tree
 
 end Props.C04
